@@ -136,6 +136,7 @@ func cmdCheck(args []string) int {
 			continue
 		}
 		g := newGen(prog, fn, prog.specs.Contracts[k])
+		g.onlyProp = *prop
 		if err := g.Run(); err != nil {
 			rep.Err = err.Error()
 			continue
@@ -427,7 +428,27 @@ func (p *Program) lemmaObligation(l *Lemma) (o *Obligation, err error) {
 	env := &Env{g: g, vars: map[string]Val{}, pure: true}
 	t := env.trBool(l.E)
 	var sb strings.Builder
-	sb.WriteString(g.header())
+	if l.Induct != "" {
+		// induction over the recursion of the spec functions: the hypothesis is the
+		// statement for the _lim symbols (the recursive occurrences after one unfolding).
+		sb.WriteString("(set-logic ALL)\n" + smtPrelude)
+		for _, d := range p.u.structDecl {
+			sb.WriteString(d + "\n")
+		}
+		sb.WriteString(p.specBase)
+		for i := 0; i < l.Index; i++ {
+			sb.WriteString(p.indAxioms[i])
+		}
+		hyp := t
+		for _, m := range p.specs.FunOrder {
+			if p.specs.Funs[m].Rec {
+				hyp = strings.ReplaceAll(hyp, "(sf_"+m+" ", "(sf_"+m+"_lim ")
+			}
+		}
+		sb.WriteString("(assert " + hyp + ") ; induction hypothesis\n")
+	} else {
+		sb.WriteString(g.header())
+	}
 	sb.WriteString("; lemma " + l.Name + "\n(assert (not " + t + "))\n(check-sat)\n")
 	return &Obligation{Name: "lemma/" + l.Name, Fn: "spec", Kind: "lemma", Tags: l.Tags, Desc: l.E.String(), Query: sb.String(), Expect: "unsat"}, nil
 }
